@@ -23,11 +23,10 @@ and the number of chunks whose `last_applied` was published when the revision wa
 * `file_scan_sound` — File engine, every schedule: `laVer ≤ dataVer ≤ laVer + 1`, the entries are the exact scan
   of the sequential state after `dataVer` chunks and the revision is `last_applied` after `laVer` chunks.
   So the data is never *behind* the revision (`file_scan_never_behind`).
-* `rocks_scan_sound` — RocksDB, every schedule: same description of entries and revision, but no relation
-  between the versions; `rocks_never_behind_statement_false`: the schedule
-  `scanIter; applyData; applyLa; scanRev` returns the *old* data with the *new* revision (F24).
-  `rocks_scan_never_behind_partial`: if `update_last_applied` never runs between the two reads of a scan,
-  `laVer ≤ dataVer` holds.
+* `rocks_scan_sound`, `rocks_scan_never_behind` — RocksDB (current code, F24 fixed: the revision is loaded before
+  the iterator is created), every schedule: same description and `laVer ≤ dataVer`.
+  `old_rule_never_behind_statement_false`: under the rule before the fix (iterate, then load) the schedule
+  `scanBegin; applyData; applyLa; scanEnd` returned the *old* data with the *new* revision (F24, fixed).
 * `exact_at_revision_statement_false_file` — the literal reading "data = state at the reported revision" is
   false for the File engine too (data may be one chunk *ahead*: `last_applied` is stored after the data lock is
   released) — harmless for the documented use, see `resync_converges`.
@@ -125,9 +124,11 @@ structure RInv (s : RSys) : Prop where
   inflOk : ∀ chunk, s.inflight = some chunk → ∃ sq, s.seq[s.dataVer]? = some sq ∧
     (sq.laIndex, sq.laTerm) = (highest chunk).getD (s.st.laIndex, s.st.laTerm)
   wf : ∀ sq ∈ s.seq, AMap.WF sq.db
-  scanOk : ∀ p es d, s.scan = some (p, es, d) → p ≠ [] ∧ ∃ sq, s.seq[d]? = some sq ∧ es = rocksIter sq p
-  doneOk : ∀ o ∈ s.done, o.pfx ≠ [] ∧ ∃ sd sl, s.seq[o.dataVer]? = some sd ∧ s.seq[o.laVer]? = some sl ∧
-    o.entries = rocksIter sd o.pfx ∧ o.revision = sl.laIndex
+  scanOk : ∀ p rev l, s.scan = some (p, rev, l) → p ≠ [] ∧ l ≤ s.laVer ∧
+    ∃ sl, s.seq[l]? = some sl ∧ rev = sl.laIndex
+  doneOk : ∀ o ∈ s.done, o.pfx ≠ [] ∧ o.laVer ≤ o.dataVer ∧
+    ∃ sd sl, s.seq[o.dataVer]? = some sd ∧ s.seq[o.laVer]? = some sl ∧
+      o.entries = rocksIter sd o.pfx ∧ o.revision = sl.laIndex
 
 theorem rinv_init (st : RocksSt) (h : AMap.WF st.db) : RInv (RSys.init st) := by
   refine ⟨rfl, ⟨Nat.le_refl _, Nat.le_succ _⟩, by simp [RSys.init], ⟨st, rfl, rfl⟩, ⟨st, rfl, rfl, rfl⟩, ?_, ?_, ?_, ?_⟩
@@ -199,12 +200,12 @@ theorem rinv_step (s s' : RSys) (e : Ev) (inv : RInv s) (hstep : rstep s e = som
               · exact inv.wf sq hsq
               · rw [hsq, hsqdb]
                 exact rocksApplyWrite_wf s.st st' chunk r1 (by rw [hdb]; exact inv.wf cur (List.mem_of_getElem? hcur)) hw
-            · intro p es d hs
-              obtain ⟨hp, sq, h1, h2⟩ := inv.scanOk p es d hs
-              exact ⟨hp, sq, by simp only; rw [getElem?_snoc_lt _ _ _ (lt_of_getElem?_some _ _ _ h1)]; exact h1, h2⟩
+            · intro p rev l hs
+              obtain ⟨hp, hl, sq, h1, h2⟩ := inv.scanOk p rev l hs
+              exact ⟨hp, hl, sq, by simp only; rw [getElem?_snoc_lt _ _ _ (lt_of_getElem?_some _ _ _ h1)]; exact h1, h2⟩
             · intro o ho
-              obtain ⟨hp, sd, sl, h1, h2, h3, h4⟩ := inv.doneOk o ho
-              refine ⟨hp, sd, sl, ?_, ?_, h3, h4⟩
+              obtain ⟨hp, hv, sd, sl, h1, h2, h3, h4⟩ := inv.doneOk o ho
+              refine ⟨hp, hv, sd, sl, ?_, ?_, h3, h4⟩
               · simp only; rw [getElem?_snoc_lt _ _ _ (lt_of_getElem?_some _ _ _ h1)]; exact h1
               · simp only; rw [getElem?_snoc_lt _ _ _ (lt_of_getElem?_some _ _ _ h2)]; exact h2
   | applyLa =>
@@ -217,39 +218,41 @@ theorem rinv_step (s s' : RSys) (e : Ev) (inv : RInv s) (hstep : rstep s e = som
       have hd : s.dataVer = s.laVer + 1 := inv.infl.mp (by simp [hin])
       obtain ⟨sq, hsq, hla⟩ := inv.inflOk chunk hin
       have hsl := rocksSetLa_la s.st chunk
-      refine ⟨inv.seqLen, ⟨by simp; omega, by simp; omega⟩, by simp; omega, ⟨cur, hcur, by simp only; rw [rocksSetLa_db]; exact hdb⟩, ?_, ?_, inv.wf, inv.scanOk, inv.doneOk⟩
+      refine ⟨inv.seqLen, ⟨by simp; omega, by simp; omega⟩, by simp; omega, ⟨cur, hcur, by simp only; rw [rocksSetLa_db]; exact hdb⟩, ?_, ?_, inv.wf, (fun p rev l hs => by
+        obtain ⟨hp, hl, sl, h1, h2⟩ := inv.scanOk p rev l hs
+        exact ⟨hp, by simp only; omega, sl, h1, h2⟩), inv.doneOk⟩
       · refine ⟨sq, by simp only; rw [← hd]; exact hsq, ?_, ?_⟩
         · have := congrArg Prod.fst (hsl.trans hla.symm); exact this
         · have := congrArg Prod.snd (hsl.trans hla.symm); exact this
       · intro c hc; simp at hc
-  | scanIter p =>
+  | scanBegin p =>
     simp only [rstep] at hstep
     by_cases hc : (s.scan.isSome || p.isEmpty) = true
     · simp [hc] at hstep
     · simp only [hc, Bool.false_eq_true, if_false, Option.some.injEq] at hstep
       subst hstep
       refine ⟨inv.seqLen, inv.ver, inv.infl, inv.dataOk, inv.laOk, inv.inflOk, inv.wf, ?_, inv.doneOk⟩
-      intro p' es d hs
+      intro p' rev l hs
       simp only [Option.some.injEq, Prod.mk.injEq] at hs
       obtain ⟨rfl, rfl, rfl⟩ := hs
-      refine ⟨?_, cur, hcur, rocksIter_congr s.st cur _ hdb⟩
+      refine ⟨?_, Nat.le_refl _, lst, hlst, hli⟩
       intro hp; subst hp; simp at hc
-  | scanRev =>
+  | scanEnd =>
     simp only [rstep] at hstep
     cases hsc : s.scan with
     | none => simp [hsc] at hstep
     | some t =>
-      obtain ⟨p, es, d⟩ := t
+      obtain ⟨p, rev, l⟩ := t
       simp only [hsc, Option.some.injEq] at hstep
       subst hstep
-      obtain ⟨hp, sd, h1, h2⟩ := inv.scanOk p es d hsc
-      refine ⟨inv.seqLen, inv.ver, inv.infl, inv.dataOk, inv.laOk, inv.inflOk, inv.wf, by intro p es d hs; simp at hs, ?_⟩
+      obtain ⟨hp, hl, sl, h1, h2⟩ := inv.scanOk p rev l hsc
+      refine ⟨inv.seqLen, inv.ver, inv.infl, inv.dataOk, inv.laOk, inv.inflOk, inv.wf, by intro p rev l hs; simp at hs, ?_⟩
       intro o ho
       simp only [List.mem_append, List.mem_singleton] at ho
       rcases ho with ho | ho
       · exact inv.doneOk o ho
       · subst ho
-        exact ⟨hp, sd, lst, h1, hlst, h2, hli⟩
+        exact ⟨hp, by have := inv.ver.1; simp only; omega, cur, sl, hcur, h1, rocksIter_congr s.st cur p hdb, h2⟩
 
 theorem rinv_run (sched : List Ev) : ∀ (s s' : RSys), RInv s → runSched rstep s sched = some s' → RInv s' := by
   induction sched with
@@ -261,49 +264,66 @@ theorem rinv_run (sched : List Ev) : ∀ (s s' : RSys), RInv s → runSched rste
     | none => simp [hs] at h
     | some s1 => simp only [hs] at h; exact ih s1 s' (rinv_step s s1 e inv hs) h
 
-/-- **RocksDB, every schedule**: what a completed scan returns — the exact scan of the sequential state after
-    `dataVer` chunks, with the `last_applied` index of the sequential state after `laVer` chunks. -/
+/-- **RocksDB (current code: revision first), every schedule**: a completed scan returns the exact scan of the
+    sequential state after `dataVer` chunks with the `last_applied` index of the state after `laVer` chunks,
+    and `laVer ≤ dataVer`: the data is never behind the revision. -/
 theorem rocks_scan_sound (st : RocksSt) (hwf : AMap.WF st.db) (sched : List Ev) (s : RSys)
     (hrun : runSched rstep (RSys.init st) sched = some s) :
-    ∀ o ∈ s.done, ∃ sd sl, s.seq[o.dataVer]? = some sd ∧ s.seq[o.laVer]? = some sl ∧
+    ∀ o ∈ s.done, o.laVer ≤ o.dataVer ∧ ∃ sd sl, s.seq[o.dataVer]? = some sd ∧ s.seq[o.laVer]? = some sl ∧
       (∀ k v, (k, v) ∈ o.entries ↔ (startsWith k o.pfx = true ∧ rocksAbs sd k = some v)) ∧
       o.revision = sl.laIndex := by
   have inv := rinv_run sched _ s (rinv_init st hwf) hrun
   intro o ho
-  obtain ⟨hp, sd, sl, h1, h2, h3, h4⟩ := inv.doneOk o ho
-  refine ⟨sd, sl, h1, h2, ?_, h4⟩
+  obtain ⟨hp, hv, sd, sl, h1, h2, h3, h4⟩ := inv.doneOk o ho
+  refine ⟨hv, sd, sl, h1, h2, ?_, h4⟩
   intro k v
   rw [h3]
   exact rocksScan_exact sd (inv.wf sd (List.mem_of_getElem? h1)) o.pfx hp k v
 
-/-- "The data a scan returns is never behind the revision it reports", for an engine's step function. -/
-def NeverBehindRocks : Prop :=
-  ∀ (st : RocksSt), AMap.WF st.db → ∀ (sched : List Ev) (s : RSys),
-    runSched rstep (RSys.init st) sched = some s → ∀ o ∈ s.done, o.laVer ≤ o.dataVer
+/-- **F24 repaired (full theorem, was `_partial`)**: on every schedule the RocksDB scan's data is never behind
+    its revision. -/
+theorem rocks_scan_never_behind (st : RocksSt) (hwf : AMap.WF st.db) (sched : List Ev) (s : RSys)
+    (hrun : runSched rstep (RSys.init st) sched = some s) : ∀ o ∈ s.done, o.laVer ≤ o.dataVer :=
+  fun o ho => (rocks_scan_sound st hwf sched s hrun o ho).1
 
 def k1 : Key := [0x61]
 def vx : Val := [0x78]
-/-- F24 witness: the scan iterates, a chunk `put a=x` (index 1) is applied completely, the scan reads the revision. -/
-def f24Sched : List Ev := [.scanIter k1, .applyData [⟨1, 1, .put k1 vx none⟩], .applyLa, .scanRev]
+/-- the F24 interleaving: first read of the scan, a chunk `put a=x` (index 1) applied completely, second read -/
+def f24Sched : List Ev := [.scanBegin k1, .applyData [⟨1, 1, .put k1 vx none⟩], .applyLa, .scanEnd]
 
 def obsOfR (r : Option RSys) : List (List (Key × Val) × Nat × Nat × Nat) :=
   match r with
   | some s => s.done.map fun o => (o.entries, o.revision, o.dataVer, o.laVer)
   | none => []
 
-/-- What the F24 schedule returns: no entries, revision 1 — although entry 1 wrote a key with that prefix. -/
-theorem f24_observation :
-    obsOfR (runSched rstep (RSys.init RocksSt.init) f24Sched) = [([], 1, 0, 1)] := by decide
+/-- Current code on the F24 interleaving: the new data with the old revision 0 (ahead, harmless). -/
+theorem f24_schedule_now :
+    obsOfR (runSched rstep (RSys.init RocksSt.init) f24Sched) = [([(k1, vx)], 0, 1, 0)] := by decide
 
-/-- **F24**: RocksDB's scan can return data that is behind its revision. -/
-theorem rocks_never_behind_statement_false : ¬ NeverBehindRocks := by
+/-! ### the rule before the fix (kept as a statement about the OLD code, commit history: `fix:` F24) -/
+
+def obsOfOld (r : Option ROld) : List (List (Key × Val) × Nat × Nat × Nat) :=
+  match r with
+  | some s => s.done.map fun o => (o.entries, o.revision, o.dataVer, o.laVer)
+  | none => []
+
+def NeverBehindRocksOldRule : Prop :=
+  ∀ (st : RocksSt), AMap.WF st.db → ∀ (sched : List Ev) (s : ROld),
+    runSched rstepOld { st := st } sched = some s → ∀ o ∈ s.done, o.laVer ≤ o.dataVer
+
+/-- What the old rule returned on the F24 schedule: no entries, revision 1 — entry 1 is lost to the client. -/
+theorem f24_observation_old_rule :
+    obsOfOld (runSched rstepOld { st := RocksSt.init } f24Sched) = [([], 1, 0, 1)] := by decide
+
+/-- **F24** (fixed): with "iterate, then load the revision" the data could be behind the revision. -/
+theorem old_rule_never_behind_statement_false : ¬ NeverBehindRocksOldRule := by
   intro h
-  cases hr : runSched rstep (RSys.init RocksSt.init) f24Sched with
-  | none => have := f24_observation; rw [hr] at this; simp [obsOfR] at this
+  cases hr : runSched rstepOld { st := RocksSt.init } f24Sched with
+  | none => have := f24_observation_old_rule; rw [hr] at this; simp [obsOfOld] at this
   | some s =>
-    have hobs := f24_observation
+    have hobs := f24_observation_old_rule
     rw [hr] at hobs
-    simp only [obsOfR] at hobs
+    simp only [obsOfOld] at hobs
     have hall := h RocksSt.init (by simp [AMap.WF, RocksSt.init]) f24Sched s hr
     cases hdone : s.done with
     | nil => simp [hdone] at hobs
@@ -312,109 +332,11 @@ theorem rocks_never_behind_statement_false : ¬ NeverBehindRocks := by
       simp only [hdone, List.map_cons, List.cons.injEq, Prod.mk.injEq] at hobs
       omega
 
-/-- invariant of the gap-free runs -/
-structure NBInv (s : RSys) : Prop where
-  scanNB : ∀ p es d, s.scan = some (p, es, d) → s.laVer ≤ d
-  doneNB : ∀ o ∈ s.done, o.laVer ≤ o.dataVer
-
-theorem nb_step (s s' : RSys) (e : Ev) (inv : RInv s) (nb : NBInv s) (hstep : rstepNoGap s e = some s') :
-    NBInv s' := by
-  unfold rstepNoGap at hstep
-  by_cases hg : laInsideScanGap s e = true
-  · simp [hg] at hstep
-  · simp only [hg, Bool.false_eq_true, if_false] at hstep
-    cases e with
-    | applyData chunk =>
-      simp only [rstep] at hstep
-      by_cases hin : s.inflight.isSome = true
-      · simp [hin] at hstep
-      · simp only [hin, Bool.false_eq_true, if_false] at hstep
-        cases hw : rocksApplyWrite s.st chunk with
-        | none => simp [hw] at hstep
-        | some w =>
-          cases hc : rocksApplyChunk (lastOr s.seq s.st) chunk with
-          | none => simp [hw, hc] at hstep
-          | some c =>
-            simp only [hw, hc, Option.some.injEq] at hstep
-            subst hstep
-            exact ⟨nb.scanNB, nb.doneNB⟩
-    | applyLa =>
-      simp only [rstep] at hstep
-      cases hin : s.inflight with
-      | none => simp [hin] at hstep
-      | some chunk =>
-        simp only [hin, Option.some.injEq] at hstep
-        subst hstep
-        have hns : s.scan = none := by
-          simp only [laInsideScanGap] at hg
-          cases hsc : s.scan with
-          | none => rfl
-          | some x => simp [hsc] at hg
-        exact ⟨(by intro p es d hs; simp only at hs; rw [hns] at hs; cases hs), nb.doneNB⟩
-    | scanIter p =>
-      simp only [rstep] at hstep
-      by_cases hc : (s.scan.isSome || p.isEmpty) = true
-      · simp [hc] at hstep
-      · simp only [hc, Bool.false_eq_true, if_false, Option.some.injEq] at hstep
-        subst hstep
-        refine ⟨?_, nb.doneNB⟩
-        intro p' es d hs
-        simp only [Option.some.injEq, Prod.mk.injEq] at hs
-        obtain ⟨_, _, rfl⟩ := hs
-        exact inv.ver.1
-    | scanRev =>
-      simp only [rstep] at hstep
-      cases hsc : s.scan with
-      | none => simp [hsc] at hstep
-      | some t =>
-        obtain ⟨p, es, d⟩ := t
-        simp only [hsc, Option.some.injEq] at hstep
-        subst hstep
-        refine ⟨by intro p es d hs; simp at hs, ?_⟩
-        intro o ho
-        simp only [List.mem_append, List.mem_singleton] at ho
-        rcases ho with ho | ho
-        · exact nb.doneNB o ho
-        · subst ho; exact nb.scanNB p es d hsc
-
-theorem rstepNoGap_sub (s s' : RSys) (e : Ev) (h : rstepNoGap s e = some s') : rstep s e = some s' := by
-  unfold rstepNoGap at h
-  by_cases hg : laInsideScanGap s e = true
-  · simp [hg] at h
-  · simpa [hg] using h
-
-theorem nb_run (sched : List Ev) : ∀ (s s' : RSys), RInv s → NBInv s → runSched rstepNoGap s sched = some s' →
-    RInv s' ∧ NBInv s' := by
-  induction sched with
-  | nil => intro s s' inv nb h; simp only [runSched, Option.some.injEq] at h; rw [← h]; exact ⟨inv, nb⟩
-  | cons e es ih =>
-    intro s s' inv nb h
-    simp only [runSched] at h
-    cases hs : rstepNoGap s e with
-    | none => simp [hs] at h
-    | some s1 =>
-      simp only [hs] at h
-      exact ih s1 s' (rinv_step s s1 e inv (rstepNoGap_sub s s1 e hs)) (nb_step s s1 e inv nb hs) h
-
-/-- **F24 `_partial`**: on every schedule in which `update_last_applied` does not run between the two reads
-    of a scan, the RocksDB scan's data is never behind its revision. -/
-theorem rocks_scan_never_behind_partial (st : RocksSt) (hwf : AMap.WF st.db) (sched : List Ev) (s : RSys)
-    (hrun : runSched rstepNoGap (RSys.init st) sched = some s) :
-    ∀ o ∈ s.done, o.laVer ≤ o.dataVer := by
-  have := nb_run sched _ s (rinv_init st hwf)
-    ⟨by intro p es d hs; simp [RSys.init] at hs, by intro o ho; simp [RSys.init] at ho⟩ hrun
-  exact this.2.doneNB
-
-/-- non-vacuity of the partial theorem: a gap-free schedule with a completed scan (sees chunk 1, revision 1) -/
-example : obsOfR (runSched rstepNoGap (RSys.init RocksSt.init)
-    [.applyData [⟨1, 1, .put k1 vx none⟩], .applyLa, .scanIter k1, .scanRev]) = [([(k1, vx)], 1, 1, 1)] := by decide
-/-- … and the F24 schedule is exactly what `rstepNoGap` refuses -/
-example : (runSched rstepNoGap (RSys.init RocksSt.init) f24Sched).isNone = true := by decide
 example : AMap.WF RocksSt.init.db := by simp [AMap.WF, RocksSt.init]
 
-/-! ## the proposed repair, checked on the version counters
+/-! ## the repair on bare version counters (the argument in its smallest form)
 
-Minimal fix for F24: load `last_applied_index` *before* creating the iterator.  On the ghost counters
+Fix for F24 (applied): load `last_applied_index` *before* creating the iterator.  On the ghost counters
 (`dataVer` = chunks visible in the data, `laVer` = chunks with published `last_applied`) the scan then records
 `laVer` first and `dataVer` second; both counters only grow and `laVer ≤ dataVer` always holds, hence the data
 can only be ahead of the revision — the File engine's (harmless) behaviour. -/
@@ -616,7 +538,7 @@ theorem finv_step (s s' : FSys) (e : Ev) (inv : FInv s) (hstep : fstep s e = som
         · have := congrArg Prod.fst (hsl.trans hla.symm); exact this
         · have := congrArg Prod.snd (hsl.trans hla.symm); exact this
       · intro c hc; simp at hc
-  | scanIter p =>
+  | scanBegin p =>
     simp only [fstep, Option.some.injEq] at hstep
     subst hstep
     refine ⟨inv.seqLen, inv.ver, inv.infl, inv.dataOk, inv.laOk, inv.inflOk, inv.wf, ?_⟩
@@ -626,7 +548,7 @@ theorem finv_step (s s' : FSys) (e : Ev) (inv : FInv s) (hstep : fstep s e = som
     · exact inv.doneOk o ho
     · subst ho
       exact ⟨inv.ver.1, inv.ver.2, cur, lst, hcur, hlst, fileScan_congr s.st cur p hdb, hli⟩
-  | scanRev => simp [fstep] at hstep
+  | scanEnd => simp [fstep] at hstep
 
 theorem finv_run (sched : List Ev) : ∀ (s s' : FSys), FInv s → runSched fstep s sched = some s' → FInv s' := by
   induction sched with
@@ -665,7 +587,7 @@ def ExactAtRevisionFile : Prop :=
     runSched fstep (FSys.init st) sched = some s → ∀ o ∈ s.done, o.dataVer = o.laVer
 
 /-- File witness: the scan runs after the memory update of chunk 1 and before `update_last_applied`. -/
-def fileAheadSched : List Ev := [.applyData [⟨1, 1, .put k1 vx none⟩], .scanIter k1, .applyLa]
+def fileAheadSched : List Ev := [.applyData [⟨1, 1, .put k1 vx none⟩], .scanBegin k1, .applyLa]
 
 def obsOfF (r : Option FSys) : List (List (Key × Val) × Nat × Nat × Nat) :=
   match r with
